@@ -10,6 +10,7 @@ import (
 	"os"
 	"path/filepath"
 	"sync"
+	"sync/atomic"
 	"testing"
 	"testing/synctest"
 	"time"
@@ -36,6 +37,10 @@ type c09Case struct {
 	TargetClose int      // ms after its last reply chunk at which the target closes; 0 = stays open
 	ReplayFirst bool     // present the (valid) packet once before, so that this presentation is a replay
 	NoRedirPort bool     // RedirAddr configured without a port: the port the peer connected to is used
+	// the server listens on several ports: the peer connected to Port (0 = 443); before it, another unauthenticated
+	// visitor was relayed who had connected to EarlierPort (0 = nobody)
+	Port        int `json:",omitempty"`
+	EarlierPort int `json:",omitempty"`
 }
 
 func unb64(s string) []byte {
@@ -60,11 +65,16 @@ func c09Inner(c c09Case) (vk.Result, error) {
 	var targetSent []byte
 	targetConns := 0
 	targetClosedAt := time.Time{}
+	var warmup atomic.Bool
 	go func() {
 		for {
 			tc, err := srv.redirLn.Accept()
 			if err != nil {
 				return
+			}
+			if warmup.Load() {
+				tc.Close()
+				continue
 			}
 			mu.Lock()
 			targetConns++
@@ -128,8 +138,21 @@ func c09Inner(c c09Case) (vk.Result, error) {
 		conn.Close()
 		synctest.Wait()
 	}
+	if c.EarlierPort != 0 {
+		warmup.Store(true)
+		d := srv.dialer()
+		d.ServerPort = c.EarlierPort
+		conn, _ := d.Dial("tcp", "x")
+		conn.Write([]byte("GET / HTTP/1.0\r\n\r\n"))
+		time.Sleep(time.Second)
+		conn.Close()
+		time.Sleep(time.Second)
+		warmup.Store(false)
+		res.Labels = append(res.Labels, "earlier-visitor-on-another-port")
+	}
 	// the peer
 	d := srv.dialer()
+	d.ServerPort = c.Port
 	pc, _ := d.Dial("tcp", "x")
 	start := time.Now()
 	var peerGot []byte
@@ -195,10 +218,13 @@ func c09Inner(c c09Case) (vk.Result, error) {
 			return res, vk.ViolateSig("not-redirected", "a peer whose first packet (%s, %d bytes) completed after %v was not relayed to the redirect target (target connections: %d)", c.Class, len(P), completeAt, tconns)
 		}
 		// relayed to the configured redirect target (its configured port, or the port the peer connected to)
-		for _, a := range srv.sta.RedirDialer.(*vk.Dialer).Requested() {
-			if a != "tcp 10.9.9.9:443" {
-				return res, vk.ViolateSig("redirect-address", "unauthenticated peer relayed to %q, configured redirect target is 10.9.9.9 port 443", a)
-			}
+		wantPort := 443
+		if c.NoRedirPort && c.Port != 0 {
+			wantPort = c.Port
+		}
+		req := srv.sta.RedirDialer.(*vk.Dialer).Requested()
+		if len(req) == 0 || req[len(req)-1] != fmt.Sprintf("tcp 10.9.9.9:%d", wantPort) {
+			return res, vk.ViolateSig("redirect-address", "unauthenticated peer that connected to port %d relayed to %q, the redirect target is 10.9.9.9 port %d (configured without a port: %v)", c.Port, req, wantPort, c.NoRedirPort)
 		}
 		if !bytes.HasPrefix(P, tg) {
 			return res, vk.ViolateSig("relay-altered", "the redirect target received %d bytes that are not a prefix of the peer's stream (first difference at %d)", len(tg), firstDiffB(tg, P))
@@ -388,6 +414,8 @@ func c09Gen(t *testing.T) func(rt *rapid.T) c09Case {
 		}
 		c.TargetClose = rapid.SampledFrom([]int{0, 0, 0, 1, 1000, 60000}).Draw(rt, "tclose")
 		c.NoRedirPort = rapid.Bool().Draw(rt, "noredirport")
+		c.Port = rapid.SampledFrom([]int{0, 0, 443, 80, 8443}).Draw(rt, "port")
+		c.EarlierPort = rapid.SampledFrom([]int{0, 0, 443, 80, 2053}).Draw(rt, "earlierport")
 		return c
 	}
 }
